@@ -32,6 +32,12 @@ def configs(tier, seed):
     for c, w in WIDTHS:
         for aw in aws:
             cfgs.append({"csr_dw": c, "wb_dw": w, "aw": aw})
+    # "multi-granule registers are therefore accessed atomically": the bridge in front of a REAL csr.Multiplexer whose registers span
+    # 2, 3, 4 and 5 granules (also spans that are not a power of two and straddle a Wishbone word); one symbolic transfer, every leaf
+    # register strobed exactly at the granule cycle of its first (read) / last (write) address and at no other time
+    for c, w in ((8, 32), (8, 16), (16, 64), (8, 64)):
+        cfgs.append({"csr_dw": c, "wb_dw": w, "aw": 4, "composite": {"aw": 4, "dw": w, "g": c, "align": 0, "children": [
+            {"t": "csr", "name": "regs", "node": {"t": "mux", "aw": 4, "regs": [[3 * c, "rw", None], [c, "rw", None], [5 * c - 3, "rw", None], [2 * c, "r", None], [4 * c, "w", None]]}}]}})
     return cfgs
 
 
@@ -49,6 +55,9 @@ def build(cfg):
 
 
 def check_config(ctx, cfg):
+    if cfg.get("composite"):
+        from .C01 import check_wb
+        return check_wb(ctx, cfg["composite"])
     br, bus = build(cfg)
     nl = ctx.netlist(br, probes=sigs_of(bus))
     wb = br.wb_bus
